@@ -411,9 +411,78 @@ def wide_graph(ctx, sut):
     run_graph(ctx, sut, count, edges, ["properties"] * len(edges), [0], "wide")
 
 
+OPTIMISED = r'''
+import json, sys
+sys.path.insert(0, sys.argv[1])
+from statham.schema.elements import AnyOf, Array, Element, Not, Object
+from statham.schema.elements.meta import ObjectClassDict, ObjectMeta
+from statham.schema.property import Property
+from statham.serializers.orderer import orderer
+from statham.schema.exceptions import SchemaParseError
+
+def model(name):
+    return ObjectMeta(name, (Object,), ObjectClassDict())
+
+out = {}
+for shape in ("self", "mutual_items", "anyof", "not", "pattern", "acyclic"):
+    a, b, leaf = model("A"), model("B"), model("Leaf")
+    a.properties["leaf"] = Property(leaf)
+    if shape == "self":
+        a.properties["me"] = Property(a)
+    elif shape == "mutual_items":
+        a.properties["b"] = Property(Array(b)); b.properties["a"] = Property(Array(a))
+    elif shape == "anyof":
+        a.properties["b"] = Property(AnyOf(b, Element())); b.properties["a"] = Property(a)
+    elif shape == "not":
+        a.properties["b"] = Property(Not(b)); b.properties["a"] = Property(Not(a))
+    elif shape == "pattern":
+        a.patternProperties = {"^x": b}; b.additionalProperties = a
+    else:
+        a.properties["b"] = Property(b)
+    try:
+        out[shape] = ["ok", [cls.__name__ for cls in orderer(a)]]
+    except SchemaParseError:
+        out[shape] = ["SchemaParseError", []]
+    except BaseException as exc:
+        out[shape] = [type(exc).__name__, []]
+print(json.dumps({"debug": __debug__, "out": out}))
+'''
+
+
+def optimised_process(ctx):
+    """The same routine in a process started with `-O` / `-OO` (assert statements are compiled away there):
+    cycles are refused, acyclic graphs ordered, exactly as in a normal process."""
+    if ctx.shard != 1 % ctx.nshards:
+        return
+    import json  # pylint: disable=import-outside-toplevel
+    import subprocess  # pylint: disable=import-outside-toplevel
+
+    from vlib import bootstrap  # pylint: disable=import-outside-toplevel
+
+    for flag in ("-O", "-OO"):
+        proc = subprocess.run([bootstrap.PYTHON, flag, "-c", OPTIMISED, bootstrap.REPO], capture_output=True,
+                              text=True, timeout=300, check=False)
+        if proc.returncode != 0:
+            ctx.count("optimised_process.failed")
+            continue
+        report = json.loads(proc.stdout.strip().splitlines()[-1])
+        ctx.evaluation()
+        ctx.count("optimised_process.runs")
+        for shape, (outcome, order) in report["out"].items():
+            ctx.count("optimised_process.graphs")
+            if shape == "acyclic":
+                if outcome != "ok" or sorted(order) != ["A", "B", "Leaf"] or order.index("A") < order.index("B"):
+                    ctx.witness("bad_order", {"optimised_process": flag, "shape": shape},
+                                f"python {flag}: acyclic graph gave {outcome} {order}")
+            elif outcome != "SchemaParseError":
+                ctx.witness("cycle_not_refused", {"optimised_process": flag, "shape": shape},
+                            f"python {flag}: cyclic dependencies ({shape}) gave {outcome} {order} instead of SchemaParseError")
+
+
 def run_shard(ctx):
     from vlib import sut  # pylint: disable=import-outside-toplevel
 
+    optimised_process(ctx)
     exhaustive(ctx, sut)
     random_graphs(ctx, sut)
     anonymous_cycles(ctx, sut)
@@ -423,6 +492,10 @@ def run_shard(ctx):
 def replay(case, ctx):
     from vlib import sut  # pylint: disable=import-outside-toplevel
 
+    if "optimised_process" in case:
+        ctx.shard, ctx.nshards = 0, 1
+        optimised_process(ctx)
+        return
     if "anonymous_cycle" in case:
         ctx.shard, ctx.nshards = 0, 1
         anonymous_cycles(ctx, sut)
